@@ -33,7 +33,8 @@ type Prog struct {
 	LimeT *types.Package
 	CG    *callgraph.Graph
 
-	fns     []*ssa.Function // all source functions (incl. anonymous) of lime and chat, sorted by position
+	alias   map[string]string // role name (pinned identifier) → identifier in the current tree, see names.go
+	fns     []*ssa.Function   // all source functions (incl. anonymous) of lime and chat, sorted by position
 	nFuncs  int
 	nInstrs int
 }
@@ -115,6 +116,8 @@ func loadProg(root, tags string, env []string) (*Prog, error) {
 			p.nInstrs += len(b.Instrs)
 		}
 	}
+	curProg = p
+	p.resolveAliases()
 	return p, nil
 }
 
@@ -132,7 +135,12 @@ func (p *Prog) LimeFuncs() []*ssa.Function {
 func (p *Prog) AllFuncs() []*ssa.Function { return p.fns }
 
 // Type looks up a named type of package lime.
+var curProg *Prog
+
 func (p *Prog) Type(name string) *types.Named {
+	if al := p.aliasOf("type", name); al != "" {
+		name = al
+	}
 	o := p.LimeT.Scope().Lookup(name)
 	if o == nil {
 		return nil
@@ -152,6 +160,9 @@ func (p *Prog) Const(name string) *types.Const {
 
 // Func looks up a package-level function of lime.
 func (p *Prog) Func(name string) *ssa.Function {
+	if al := p.aliasOf("func", name); al != "" {
+		name = al
+	}
 	return p.Lime.Func(name)
 }
 
@@ -160,6 +171,9 @@ func (p *Prog) Method(typ, name string) *ssa.Function {
 	n := p.Type(typ)
 	if n == nil {
 		return nil
+	}
+	if al := p.aliasOf("method", typ+"."+name); al != "" {
+		name = al
 	}
 	for i := 0; i < n.NumMethods(); i++ {
 		m := n.Method(i)
@@ -175,6 +189,9 @@ func (p *Prog) Field(typ, name string) *types.Var {
 	n := p.Type(typ)
 	if n == nil {
 		return nil
+	}
+	if al := p.aliasOf("field", typ+"."+name); al != "" {
+		name = al
 	}
 	st, ok := n.Underlying().(*types.Struct)
 	if !ok {
